@@ -379,8 +379,17 @@ func runVGenesisCase(ta *TestApp, seed uint64, idx int, rep *Report, profile str
 		trT = append(trT, fmt.Sprintf("{| gt_id := %d; gt_addr := %d; gt_addr_ok := %s; gt_flags := {| t_genesis := %s; t_from_pool := %s; t_from_acct := %s |} |}",
 			t.Id, tRank[t.Address], zBool(e == nil), zBool(t.Genesis), zBool(t.FromGenesisPool), zBool(t.FromGenesisAccount)))
 	}
-	gterm := fmt.Sprintf("{| vg_denom_nonempty := %s; vg_denom_ok := %s; vg_vtypes := %s; vg_owners := %s; vg_traces := %s; vg_trace_count := %d |}",
-		zBool(denom != ""), zBool(denom != "" && sdk.ValidateDenom(denom) == nil), zList(vtT), zList(owT), zList(trT), count)
+	// the denomination as a number: 0 the empty string, then one number per string
+	denomId := func(d string) int64 {
+		for i, x := range []string{"", BondDenom, "uvest", "ibc/27394FB092D2ECCD56123C74F36E4C1F926001CEADA9CA97EA622B25F41E5EB2", "u2", "1"} {
+			if x == d {
+				return int64(i)
+			}
+		}
+		return 99
+	}
+	gterm := fmt.Sprintf("{| vg_denom := %d; vg_denom_nonempty := %s; vg_denom_ok := %s; vg_vtypes := %s; vg_owners := %s; vg_traces := %s; vg_trace_count := %d |}",
+		denomId(denom), zBool(denom != ""), zBool(denom != "" && sdk.ValidateDenom(denom) == nil), zList(vtT), zList(owT), zList(trT), count)
 
 	expected := []*big.Int{bi(b2i(valid))}
 	if !initOK {
@@ -415,6 +424,8 @@ func runVGenesisCase(ta *TestApp, seed uint64, idx int, rep *Report, profile str
 		for _, t := range cfevesting.ExportGenesis(ctx, k).VestingTypes {
 			expected = append(expected, bi(nm(t.Name)), bi(unitCode(t.LockupPeriodUnit)), bi(t.LockupPeriod), bi(unitCode(t.VestingPeriodUnit)), bi(t.VestingPeriod), t.Free.BigInt())
 		}
+		// ... and the denomination of the parameters ExportGenesis writes
+		expected = append(expected, bi(denomId(cfevesting.ExportGenesis(ctx, k).Params.Denom)))
 		// ---- predicates on the implementation alone
 		if valid {
 			modBal := app.BankKeeper.GetBalance(ctx, app.AccountKeeper.GetModuleAddress(vesttypes.ModuleName), balDenom).Amount
